@@ -636,7 +636,7 @@ func checkC19(R *Run) {
 						continue
 					}
 					n++
-					base := P.baseName(fn, fa.X)
+					base := P.baseName(fn, faBase(fa))
 					R.check(L.held(ri, sp[1], base), "cursor-lockset", fmt.Sprintf("%s: %s of %s.readOffset", fname(fn), kind, strings.TrimPrefix(typ, "mobius.")), P.ipos(ri),
 						"store mutex held", "the shared read cursor is accessed without the store's mutex (Read holds it): a concurrent Seek of another connection moves the cursor under a reader")
 				}
@@ -1069,7 +1069,7 @@ func checkC18(R *Run) {
 			R.und("news-lockset", "table: "+f, "-", "no access to this map field was found: the field was renamed or moved and the owner table is stale")
 		}
 	}
-	R.floor("news-lockset", 3)
+	R.floor("news-lockset", 2) // one site per map field at least (see above); folding traversals into one helper leaves two
 
 	// path resolution (shared with C05) and the persisted shape of the tree
 	R.ruleKindTargetAgree()
@@ -1147,7 +1147,46 @@ func checkC18(R *Run) {
 		}
 		ok := sortCall != nil && encodeLoopRead != nil && instrDominates(sortCall.(ssa.Instruction), encodeLoopRead.(ssa.Instruction))
 		why := "the articles are not sorted before they are encoded"
-		if ok {
+		// the other way to the same order: the entries are built while walking slices.Sorted(maps.Keys(Articles)) — the
+		// numeric IDs in ascending order — and each entry's ID is the key it was built for
+		sortedKeys := false
+		if !ok {
+			for _, ci := range callsIn(fn) {
+				sc, isCall := ci.(*ssa.Call)
+				if !isCall || calleeName(&sc.Call) != "slices.Sorted" || len(sc.Call.Args) != 1 {
+					continue
+				}
+				kc := callValue(stripConv(sc.Call.Args[0]))
+				if kc == nil || calleeName(&kc.Call) != "maps.Keys" || len(kc.Call.Args) != 1 {
+					continue
+				}
+				if f, isF := loadedField(stripConv(kc.Call.Args[0])); !isF || f != "hotline.NewsCategoryListData15.Articles" {
+					continue
+				}
+				for _, cj := range callsIn(fn) {
+					c := cj.Common()
+					if !strings.HasSuffix(calleeName(c), ".PutUint32") || len(c.Args) < 2 {
+						continue
+					}
+					toID := P.reaches(c.Args[len(c.Args)-2], func(x ssa.Value) bool {
+						fa, isFa := x.(*ssa.FieldAddr)
+						if !isFa {
+							return false
+						}
+						f, _ := fieldOf(fa)
+						return f == "hotline.NewsArtList.ID"
+					})
+					fromKey := P.reaches(c.Args[len(c.Args)-1], func(x ssa.Value) bool { return x == ssa.Value(sc) })
+					if toID && fromKey && instrDominates(sc, cj.(ssa.Instruction)) {
+						sortedKeys = true
+					}
+				}
+			}
+			if sortedKeys {
+				ok = true
+			}
+		}
+		if ok && !sortedKeys {
 			// comparator compares Uint32 of a.ID and b.ID
 			cmpOK := false
 			for _, cb := range funcArgsPassed(sortCall) {
